@@ -166,7 +166,7 @@ def runConn (f : List String) (bytes : Array Nat) (reqOffsets : List Nat) (wins 
     let (items, ending) := Socket.parseFrames h.fsize (rest.length + 2) rest
     let hdrLen := bytes.size - rest.length
     let reqs := reqOffsets.reverse.map (· - hdrLen)
-    let winsRel := if kvN f "windowset" == 1 then wins.reverse.map (fun (o, v) => (o - hdrLen, v)) else []
+    let winsRel := if kvN f "windowset" != 0 then wins.reverse.map (fun (o, v) => (o - hdrLen, v)) else []
     let (p, frozen, bgs) := runItems c items reqs winsRel h.fsize
     let files := p.files.reverse
     let idx := (List.range files.length).zip files
